@@ -69,6 +69,12 @@ Theorem C15_successors_declarative : forall inl s h o f l, hget h o = Some f -> 
 Proof. exact succs_declarative. Qed.
 Print Assumptions C15_successors_declarative.
 
+(* after a traversal nothing is left to assign: traversing the resulting CAS again ends in the very same state *)
+Theorem C15_second_traversal_identical : forall inl s c seeds w, 0 < c_next_id c -> find_all_from inl s c seeds = Ok w ->
+  find_all_from inl s (cas_after c w) seeds = Ok w.
+Proof. exact find_all_stable. Qed.
+Print Assumptions C15_second_traversal_identical.
+
 Theorem C15_result_each_once : forall inl s c seeds w, find_all_from inl s c seeds = Ok w ->
   NoDup (map fst (w_all w)) /\ NoDup (returned w).
 Proof. exact find_all_each_once. Qed.
